@@ -134,6 +134,11 @@ def sections_variants(f):
             out.append(build(bodies[1:]))                                             # index missing
             out.append(build(bodies[:-1]))                                            # responses missing
         out.append(build([(nm, bd) for nm, bd in reversed(bodies[:-1])] + bodies[-1:]))
+        # the same section name twice where the earlier occurrence is EMPTY (a lookup that skips empty sections does not see it)
+        for dup in ([(b'foo', b''), (b'foo', b'')], [(b'foo', b''), (b'foo', b'\x01\x02\x03')], [(b'foo', b'\x01'), (b'foo', b'')], [(b'responses', b'')], [(b'index', b'')],
+                    [(b'primary', b''), (b'primary', b'')], [(b'signatures', b'')], [(b'manifest', b''), (b'manifest', b'')], [(b'', b''), (b'', b'')]):
+            out.append(build(dup + bodies))
+            out.append(build(bodies[:1] + dup + bodies[1:]))
     except Exception:
         pass
     return out
@@ -246,6 +251,14 @@ def run(ctx):
         crafted.append(craft_b2([(b'https://example.com/', r)]))
         crafted.append(craft_b2([(b'https://example.com/0', craft_response([ST], b'ok')), (b'https://example.com/1', r)], primary=b'https://example.com/0'))
     muts += crafted
+    # header magic of one version with the version string of the other, and other pairings of the two magic fields
+    magic_mix = []
+    for f in files:
+        if len(f) > 15:
+            for h0 in (0x85, 0x86, 0x84, 0x87):
+                for vs in (b'b1', b'b2', b'b3', b'b0'):
+                    magic_mix.append(bytes([h0]) + f[1:11] + vs + f[13:])
+    muts += magic_mix
     # b1 index entries whose Variants axes multiply past the limit, to 2^63, to 2^64 (wraps to 0) and beyond, with a value array that
     # carries no / one / the honest number of locations; plus small honest variant entries built the same way (controls)
     okr = craft_response([ST], b'ok')
@@ -276,7 +289,7 @@ def run(ctx):
         if mfile not in seen:
             seen.add(mfile); uniq.append(mfile)
     if not thorough and len(uniq) > 20000:
-        keep = set(crafted) | set(b1c)
+        keep = set(crafted) | set(b1c) | set(magic_mix)
         for f in files:
             keep.update(index_mutants(f)); keep.update(c10.retabled(f)); keep.update(sections_variants(f)); keep.add(f)
         rest = [u for u in uniq if u not in keep]
